@@ -276,7 +276,8 @@ CHECKS = {
         "timeout": {"quick": 900, "thorough": 14000},
     },
     "C17": {
-        "scenarios": [("C17-codec", "vreal"), ("C17-codec", "vreal", 1.0, {"GODEBUG": "cpu.bmi2=off"})],
+        "scenarios": [("C17-codec", "vreal"), ("C17-codec", "vreal", 1.0, {"GODEBUG": "cpu.bmi2=off"}), ("C17-codec", "vrace", 0.1, {"GODEBUG": "cpu.bmi2=off"})],
+        "races": True,
         "rule": "per case 200000 structured/random 64-bit (x, mask) pairs for PDEP/PEXT against a bit loop, and 1200 codec cases: body "
                 "lengths 1..64, multiples of C +-1 up to 4096, 32763/32764/32767/32768, random; 4 modes; masks of the required weight "
                 "(random, contiguous, alternating, extreme); 31 rotations; both polarities; each encoding compared byte for byte with "
